@@ -133,7 +133,7 @@ def repo_tests_under_monitor(ctx, accept):
             ctx.violate(v["clause"], v["detail"], v["case"])
 
 
-HISTORIES = ["fresh", "fresh", "fresh", "solve_then_move_leaf", "solve_then_phase_conf", "solve_then_change_comp"]
+HISTORIES = ["fresh", "fresh", "fresh", "solve_then_move_leaf", "solve_then_phase_conf", "solve_then_change_comp", "index_gaps"]
 
 
 def build_with_history(ctx, spec, mode, hseed):
@@ -201,5 +201,24 @@ def build_with_history(ctx, spec, mode, hseed):
                 em[c["name"]]["phase"] = None
             ctx.count("history", mode)
             return eff, so
+    if mode == "index_gaps":
+        # scratch components added right after the first source and deleted at the very end: the node indices they
+        # occupied stay free, so the solver's vectors (indexed by node index) contain holes
+        first = spec["comps"][0]
+        so = ns.System(spec.get("name", "sys"), S.make_comp(ns, first), group=first.get("group", ""), rail=first.get("rail", ""))
+        k = rng.choice([1, 2, 3])
+        for g_ in range(k):
+            so.add_comp(first["name"], comp=ns.KINDS["ILoad"]("~gap%d" % g_, ii=0.001))
+            if rng.random() < 0.5:
+                so.add_comp(first["name"], comp=ns.KINDS["RLoss"]("~gapr%d" % g_, rs=0.1))
+        for c in spec["comps"][1:]:
+            S.add_one(so, spec, c, ns)
+        S.apply_phase_conf(so, spec)
+        if rng.random() < 0.5:
+            analyse(so)
+        for n in [x for x in list(so._g.attrs["nodes"]) if x.startswith("~gap")]:
+            so.del_comp(n)
+        ctx.count("history", mode)
+        return spec, so
     ctx.count("history", "fresh")
     return spec, fresh(spec)
